@@ -26,16 +26,24 @@ def patches_for(pid):
         if os.path.exists(os.path.join(d, "patch.diff")):
             out.append((os.path.basename(d), os.path.join(d, "patch.diff"), "seed"))
     # changes seeded for another property that this property's rules are expected to report
+    # (an evenly spread sample of them: the full cross product is what tools/seed_matrix.py computes, offline, into
+    #  seeded/MATRIX.json; VERIF_SELFTEST_CROSS=0 runs them all here as well)
     mpath = os.path.join(VERIF, "seeded", "MATRIX.json")
     if os.path.exists(mpath):
         m = json.load(open(mpath))
+        cross = []
         for name, v in sorted(m.items()):
             if pid in v.get("detected_by", []) and not name.startswith(pid):
                 p = os.path.join(VERIF, "seeded", name, "patch.diff")
                 if not os.path.exists(p):
                     p = os.path.join(VERIF, "mutants", name + ".patch")
                 if os.path.exists(p):
-                    out.append((name, p, "cross"))
+                    cross.append((name, p, "cross"))
+        cap = int(os.environ.get("VERIF_SELFTEST_CROSS", "15") or 0)
+        if cap and len(cross) > cap:
+            step = len(cross) / cap
+            cross = [cross[int(i * step)] for i in range(cap)]
+        out += cross
     return out
 
 
